@@ -3,7 +3,7 @@ C11, the glue after the generator: `apko publish` attaches to a manifest the doc
 platform (variant included), and a document is encoded straight into its own file (no shared buffer between the
 per-architecture generators).  Facts regenerated from pkg/build/oci/sbom.go and pkg/sbom/generator/spdx/spdx.go.
 -/
-import Apko.Generated.Glue
+import Apko.Generated.GlueLayer
 
 namespace Apko.C11.Glue
 open Apko
